@@ -176,6 +176,13 @@ def case_reference(case):
     name = case["solve"]
     kw, (c, f, g), _ = _run_solve(name)
     np.savez(case["path"], c=c, f=f, gx=g[0], gy=g[1], gz=g[2])
+    if name == "A":  # what the library's own exit hook would write
+        import pickle
+
+        import pyfftw
+
+        with open(os.path.join(os.path.dirname(case["path"]), "fftw_wisdom.pkl"), "wb") as fh:
+            pickle.dump(pyfftw.export_wisdom(), fh)
     if name == "C":  # double-precision twin for the storage-rounding claim
         S = sl.solver()
         kw = solve_args("C")
@@ -191,7 +198,12 @@ def case_history(case):
 
     hist = case["history"]
     if case.get("wisdom"):
-        shutil.copy(os.path.join(core.REPO, "fftw_wisdom.pkl"), "fftw_wisdom.pkl")
+        # the wisdom file a previous run would have left in the working directory: the repository's own copy if it
+        # is there (it is git-ignored, so a bare checkout does not have it), else one exported by the reference stage
+        src = os.path.join(core.REPO, "fftw_wisdom.pkl")
+        if not os.path.exists(src):
+            src = os.path.join(case["refdir"], "fftw_wisdom.pkl")
+        shutil.copy(src, "fftw_wisdom.pkl")
     refdir = case["refdir"]
     if not os.path.exists(os.path.join(refdir, "A.npz")):
         raise core.HarnessError("reference results missing in %s" % refdir)
